@@ -118,9 +118,7 @@ func (sc *SeqScenario) enumerate(c *Collector, unitBase *int) {
 		if !mine && depth > 0 && depth <= 2 {
 			// Not this shard's unit, but its verdict decides whether the
 			// subtree is explored at all: run it without recording.
-			saveT := c.res.Transitions
-			v, _, w := sc.runHistory(hist, c)
-			c.res.Transitions = saveT
+			v, _, w := sc.runHistory(hist, newCollector(c.job))
 			if w != nil {
 				w.Close()
 			}
